@@ -184,6 +184,9 @@ impl Handler {
         if sc["fail_before"].as_bool().unwrap_or(false) { return Err(script_status(&sc["end"])); }
         let mut items: Vec<Result<Vec<u8>, Status>> = sc["msgs"].as_array().cloned().unwrap_or_default().iter().map(|m| Ok(json_bytes(m))).collect();
         if !sc["end"]["ok"].as_bool().unwrap_or(true) { items.push(Err(script_status(&sc["end"]))); }
+        // a successful stream with trailing metadata: the only way a handler can attach custom trailers without failing the call is to end
+        // its stream with an OK status that carries them
+        else if sc["end"]["meta"].as_array().map(|a| !a.is_empty()).unwrap_or(false) { let (m, _) = build_meta(&sc["end"]["meta"]); items.push(Err(Status::with_metadata(Code::Ok, "", m))); }
         let pend_before: Vec<usize> = sc["stream_pend"].as_array().map(|a| a.iter().filter_map(|x| x.as_u64()).map(|x| x as usize).collect()).unwrap_or_default();
         let mut r = Response::new(Box::pin(StrictStream { items: items.into(), ended: false, complained: false, pend_before, k: 0, pended: false }) as BoxStream);
         let (m, _) = build_meta(&sc["init_meta"]);
@@ -595,7 +598,7 @@ pub fn rand_script(rng: &mut impl Rng, shape: &str) -> Value {
     let single = shape == "unary" || shape == "cstream";
     let k = if single { 1 } else { rng.gen_range(0..4) };
     let msgs: Vec<Value> = (0..k).map(|_| { let n = [0usize, 1, 3, 20, 200, 3000][rng.gen_range(0..6)]; bytes_json(&rb(rng, n)) }).collect();
-    let end = if ok { json!({"ok":true}) } else {
+    let end = if ok { if !single && rng.gen_bool(0.4) { json!({"ok":true,"meta":crate::labs::status::rand_meta(rng)}) } else { json!({"ok":true}) } } else {
         // (all-ASCII messages containing '%' - alone, before hex digits, before other characters - are where an escaping shortcut would show)
         let msg = ["", "boom", "bad: é%", "a b\nc", "100% \u{1F600}", "bad query: name=J%C3%BCrgen&path=%2Ftmp%2Fx", "100%", "%41%zz% 7%ff"][rng.gen_range(0..8)];
         let dn = rng.gen_range(0..6);
